@@ -604,6 +604,7 @@ def event_layout(rep):
         rep['untranslatable'].append('Event accessors: %s' % ex)
     L += filter_header(rep)
     L += tags_layout(rep)
+    L += tags_writer(rep)
     L += ['end Pocket.Src', '']
     return '\n'.join(L)
 
@@ -775,6 +776,77 @@ def tags_layout(rep):
         L += ['/-- the readers of `Tags` could not be translated: %s -/' % str(ex).replace('-/', '- /'),
               'def tagReads : List Nat := untranslatable_source "Tags readers"', '']
         rep['untranslatable'].append('tags readers: %s' % ex)
+    return L
+
+
+def _tag_stmts(txt, names, what):
+    """`output[A..A+W].copy_from_slice(V);`, `p+=E;`, `letslen=s.len();` -> Lean `let` lines over (output, p)"""
+    out, names = [], dict(names)
+    while txt:
+        m = re.match(r'let(\w+)=s\.len\(\);', txt)
+        if m:
+            names[m.group(1)] = 's.length'; txt = txt[m.end():]
+            continue
+        m = re.match(r'p\+=([^;]+);', txt)
+        if m:
+            out.append('let p := p + %s' % _size_expr(m.group(1), names)); txt = txt[m.end():]
+            continue
+        m = re.match(r'output\[([^\].]+)\.\.([^\]]+)\]\.copy_from_slice\(\(([\w.()]+?)asu16\)\.to_ne_bytes\(\)\.as_slice\(\)\);', txt)
+        if m:
+            if m.group(2) != m.group(1) + '+2' and not (m.group(1).isdigit() and m.group(2).isdigit() and int(m.group(2)) == int(m.group(1)) + 2):
+                raise Untranslatable('%s: a u16 written to output[%s..%s]' % (what, m.group(1), m.group(2)))
+            out.append('let output := wr output (%s) (le16 %s)' % (_size_expr(m.group(1), names), _size_expr(m.group(3), names)))
+            txt = txt[m.end():]
+            continue
+        m = re.match(r'output\[([^\].]+)\.\.([^\]]+)\]\.copy_from_slice\(s\.as_bytes\(\)\);', txt)
+        if m:
+            a, b = m.group(1), m.group(2)
+            if not b.startswith(a + '+') or names.get(b[len(a) + 1:]) != 's.length':
+                raise Untranslatable('%s: the string written to output[%s..%s]' % (what, a, b))
+            out.append('let output := wr output (%s) s' % _size_expr(a, names)); txt = txt[m.end():]
+            continue
+        raise Untranslatable('%s: statement %r' % (what, txt[:60]))
+    return out
+
+
+def tags_writer(rep):
+    """the whole of `Tags::from_parts` after its two rejections, as a program of random-access writes `wr` into the output buffer:
+    the header, then per tag (numbered `n`) and per string the statements of the two loops, with the moving `p`"""
+    src = open(os.path.join(REPO, 'pocket-types/src/tags.rs')).read()
+    L = ['/-- `output[pos..pos + v.len()].copy_from_slice(v)` -/',
+         'def wr (out : Bytes) (pos : Nat) (v : Bytes) : Bytes := out.take pos ++ v ++ out.drop (pos + v.length)', '']
+    try:
+        _, body = fn_text(src, 'from_parts')
+        b = re.sub(r'\s+', '', body)
+        i = b.find('output[0..2]')
+        m = re.fullmatch(r'((?:output\[[^;]+;)+)letmutp:usize=([^;]+);for\(n,tagref\)inparts\.iter\(\)\.enumerate\(\)\{lettag=tagref\.as_ref\(\);(.*?)'
+                         r'forsrefintag\.iter\(\)\{lets=sref\.as_ref\(\);(.*?)\}\}Ok\(Self::from_inner\(&output\[\.\.length\]\)\)', b[i:]) if i >= 0 else None
+        if not m:
+            raise Untranslatable('from_parts is not "header writes, p = …, for each (n, tag) { …; for each string { … } }, the first `length` bytes"')
+        base = {'numtags': 'ts.length', 'parts.len()': 'ts.length', 'length': 'length'}
+        head = _tag_stmts(m.group(1), base, 'header')
+        tagn = dict(base); tagn.update({'n': 'n', 'p': 'p', 'tag.len()': 'tag.length'})
+        pre = _tag_stmts(m.group(3), tagn, 'tag loop')
+        strn = dict(tagn); strn['s.len()'] = 's.length'
+        inner = _tag_stmts(m.group(4), strn, 'string loop')
+        L += ['/-- `Tags::from_parts` past its rejections: the output buffer afterwards -/',
+              'def tagsWrite (ts : List (List Bytes)) (output : Bytes) : Bytes :=',
+              '  let length := tagsSize ts']
+        L += ['  ' + x for x in head]
+        L += ['  let p := %s' % _size_expr(m.group(2), base),
+              '  (ts.foldl (fun (st : Bytes × Nat × Nat) tag =>',
+              '      let (output, p, n) := st']
+        L += ['      ' + x for x in pre]
+        L += ['      let (output, p) := tag.foldl (fun (st : Bytes × Nat) s =>',
+              '          let (output, p) := st']
+        L += ['          ' + x for x in inner]
+        L += ['          (output, p)) (output, p)',
+              '      (output, p, n + 1)) (output, p, 0)).1', '']
+        rep['translated'].append('tags.rs:from_parts writer (%d + %d per tag + %d per string statements)' % (len(head), len(pre), len(inner)))
+    except Untranslatable as ex:
+        L += ['/-- the writer of `Tags::from_parts` could not be translated: %s -/' % str(ex).replace('-/', '- /'),
+              'def tagsWrite (ts : List (List Bytes)) (output : Bytes) : Bytes := untranslatable_source "Tags::from_parts writer"', '']
+        rep['untranslatable'].append('tags writer: %s' % ex)
     return L
 
 
